@@ -275,6 +275,13 @@ func (session *ServerCommandSession) handleOptions(requestCtx nazahttp.HttpReqMs
 func (session *ServerCommandSession) handleAnnounce(requestCtx nazahttp.HttpReqMsgCtx) error {
 	Log.Infof("[%s] < R ANNOUNCE", session.uniqueKey)
 
+	// 一个命令连接只承载一个pub或sub session。重复的ANNOUNCE会覆盖pubSession字段，
+	// 导致连接关闭时前一个session无法从group中删除
+	if session.pubSession != nil || session.subSession != nil {
+		Log.Errorf("[%s] announce but pub or sub session already exist on this connection.", session.uniqueKey)
+		return nazaerrors.Wrap(base.ErrRtsp)
+	}
+
 	urlCtx, err := base.ParseRtspUrl(requestCtx.Uri)
 	if err != nil {
 		Log.Errorf("[%s] parse presentation failed. uri=%s", session.uniqueKey, requestCtx.Uri)
@@ -304,6 +311,12 @@ func (session *ServerCommandSession) handleAnnounce(requestCtx nazahttp.HttpReqM
 
 func (session *ServerCommandSession) handleDescribe(requestCtx nazahttp.HttpReqMsgCtx) error {
 	Log.Infof("[%s] < R DESCRIBE", session.uniqueKey)
+
+	// 同handleAnnounce，重复的DESCRIBE会覆盖subSession字段
+	if session.pubSession != nil || session.subSession != nil {
+		Log.Errorf("[%s] describe but pub or sub session already exist on this connection.", session.uniqueKey)
+		return nazaerrors.Wrap(base.ErrRtsp)
+	}
 
 	if session.authConf.AuthEnable {
 		// 鉴权处理
